@@ -8,11 +8,11 @@ LEDGER_FILES = ['a5/core/cell.py', 'a5/core/coordinate_transforms.py', 'a5/core/
 MUST_ENTER = [('a5/core/cell.py', 'lonlat_to_cell'), ('a5/core/cell.py', '_lonlat_to_estimate'), ('a5/core/cell.py', 'a5cell_contains_point'),
               ('a5/core/cell.py', 'cell_to_boundary'), ('a5/geometry/pentagon.py', 'contains_point'),
               ('a5/core/coordinate_transforms.py', 'to_spherical')]
-CLASSES = ['uniform', 'polar', 'frame', 'antimeridian', 'wide', 'huge', 'hug', 'edge', 'seam']
+CLASSES = ['uniform', 'polar', 'frame', 'antimeridian', 'wide', 'huge', 'hug', 'edge', 'seam', 'equator']
 RULE = ('points (lon, lat, r), r uniform in 0..29, from seven hostile classes: uniform; polar (colatitude log-uniform 1e-12..1e-1 rad + exact '
         'poles); frame (log-scale neighbourhoods of the 62 dodecahedron frame points, also displaced along seams/edges); antimeridian '
         '(+-180 +- 10^u); wide (lon in [-540,540], -0.0, denormals, ints, +-360/720); huge (|lon| up to 1e15, exactly reduced by fmod); '
-        'hug (points t=1e-9..0.3 inside corners/edges of API-discovered cells); edge / seam (anywhere along the 30 dodecahedron edges / 120 '
+        'hug (points t=1e-9..0.3 inside corners/edges of API-discovered cells); deepsearch (local random search near cell corners that maximises the number of neighbour-search samples the call needed, observed through a probe on the inner estimate function); lattice (ordered whole-degree sweeps, ints and floats, back to back); edge / seam (anywhere along the 30 dodecahedron edges / 120 '
         'triangle seams, displaced by 1e-12..1e-1 rad or exactly on them); antimeridian also covers the internal azimuth cuts at lon 87 / -93. Oracle: resolution of the returned id, then sag-aware '
         'adaptive gnomonic point-in-ring on cell_to_boundary (refined to 256 segments on demand); 360-degree periodicity for exactly '
         'representable shifts. distinct = distinct (lon, lat, r); non-trivial = r>=2 and the containment margin was decided (in/out), '
@@ -83,11 +83,66 @@ def eval_point(a5, geo, p, r, cls, ctx):
                         ctx.fail('not_periodic', case, cell=c, shifted_lon=l2, shifted_cell=c2)
 
 
+def lattice_sweep(a5, geo, ctx):
+    """ordered sweeps over whole-degree grids (ints and floats), neighbouring lookups back to back"""
+    rnd = ctx.rnd
+    for r in sorted({rnd.randint(0, 12), rnd.randint(13, 29)}):
+        y0 = rnd.choice((-3, 0, 45, -60, 88))
+        for y in range(y0 - 2, y0 + 3):
+            for x in range(-4, 5):
+                x2 = x + rnd.choice((0, 0, 180, -180, 87, -93))
+                for p in ((x2, y), (float(x2), float(y))):
+                    if -90 <= y <= 90:
+                        eval_point(a5, geo, p, r, 'lattice', ctx)
+
+
+def deep_search_points(a5, geo, gen, probe, ctx, n_starts):
+    """adversarial points guided by an inner probe: the number of neighbour-search samples lonlat_to_cell needed. A local random
+    search near cell corners climbs towards points that are only resolved by late samples; every point met with a deep search is
+    judged by the oracle."""
+    rnd = ctx.rnd
+    key = '_lonlat_to_estimate'
+
+    def depth(p, r):
+        before = probe.counts().get(key, 0)
+        try:
+            a5.lonlat_to_cell(p, r)
+        except Exception:
+            return 99
+        return probe.counts().get(key, 0) - before
+    for _ in range(n_starts):
+        r = rnd.randint(2, 29)
+        base = gen.p_uniform(rnd) if rnd.random() < 0.6 else gen.p_edge(rnd)
+        try:
+            c = a5.lonlat_to_cell(base, r)
+            ring = a5.cell_to_boundary(c, {'segments': 1, 'closed_ring': False})
+            cv = geo.ll_to_vec(*a5.cell_to_lonlat(c))
+        except Exception:
+            continue
+        e = geo.ll_to_vec(*ring[rnd.randrange(len(ring))])
+        w = geo.width(r)
+        t = 10 ** rnd.uniform(-2.5, -0.7)
+        cur = geo.unit(geo.add(geo.scale(e, 1 - t), geo.scale(cv, t)))
+        best = depth(geo.vec_to_ll(cur), r)
+        for step in range(14):
+            d = geo.unit((rnd.gauss(0, 1), rnd.gauss(0, 1), rnd.gauss(0, 1)))
+            cand = geo.unit(geo.add(cur, geo.scale(d, w * 10 ** rnd.uniform(-2.5, -1))))
+            dp = depth(geo.vec_to_ll(cand), r)
+            if dp >= best:
+                cur, best = cand, dp
+            if dp >= 11:
+                eval_point(a5, geo, geo.vec_to_ll(cand), r, 'deepsearch', ctx)
+        ctx.maxi('search_samples_needed', best, {'r': r})
+        eval_point(a5, geo, geo.vec_to_ll(cur), r, 'deepsearch', ctx)
+
+
 def run_shard(spec, ctx):
     import a5
     from rv import geo, gen, probe
     probe.count_only([('a5.core.cell', 'lonlat_to_cell'), ('a5.core.cell', '_lonlat_to_estimate'), ('a5.core.cell', 'a5cell_contains_point'),
                       ('a5.core.cell', 'cell_to_boundary')])
+    lattice_sweep(a5, geo, ctx)
+    deep_search_points(a5, geo, gen, probe, ctx, spec['n'] // 40)
     for n in range(spec['n']):
         cls = CLASSES[n % len(CLASSES)]
         if cls == 'huge':
@@ -100,7 +155,7 @@ def run_shard(spec, ctx):
 
 def finalize(m, tier):
     inc = []
-    for cls in CLASSES:
+    for cls in CLASSES + ['deepsearch']:
         for band in ('lo', 'hi'):
             if m['counters'].get('%s_%s_decided' % (cls, band), 0) < 200:
                 inc.append('fewer than 200 decided points in class %s/%s' % (cls, band))
